@@ -27,8 +27,8 @@ RetOK(cfg, s, e) ==
 \* every member exactly once, membership table exact, Size = number of distinct members
 ObsWF(cfg, o) ==
   /\ o.size = Len(o.vals)
-  /\ \A i, j \in DOMAIN o.vals : KeyEq(cfg, o.vals[i], o.vals[j]) => i = j
-  /\ \A i \in DOMAIN o.has : o.has[i][2] = Hit(cfg, o.vals, o.has[i][1])
+  /\ NoDupKeys(cfg, o.vals)
+  /\ LET K == KeySet(cfg, o.vals) IN \A i \in DOMAIN o.has : o.has[i][2] = (KeyOf(cfg, o.has[i][1]) \in K)
   /\ o.cnone = TRUE
 
 \* C04 does not prescribe an enumeration order: membership only (order is C09 / C02);
@@ -38,7 +38,7 @@ C12(pre, e) == e.op = "FromJSON" =>
   /\ Completed(e)
   /\ LET want == LoadPost(e.cfg, pre, e) IN
        /\ Len(e.post.vals) = Len(want)
-       /\ \A x \in Members(want) : Hit(e.cfg, e.post.vals, x)
+       /\ KeySet(e.cfg, want) \subseteq KeySet(e.cfg, e.post.vals)
        /\ SameSet(e.cfg, e.post.vals, want)        \* same order for sorted / linked kinds; the representative of
                                                     \* comparator-equal members is free
   /\ ObsWF(e.cfg, e.post)
@@ -47,8 +47,7 @@ C04x(pre, e) ==
   /\ Completed(e)
   /\ LET want == SetPost(e.cfg, pre.vals, e) IN
        /\ Len(e.post.vals) = Len(want)
-       /\ \A x \in Members(want) : Hit(e.cfg, e.post.vals, x)
-       /\ \A x \in Members(e.post.vals) : Hit(e.cfg, want, x)
+       /\ KeySet(e.cfg, want) = KeySet(e.cfg, e.post.vals)
   /\ RetOK(e.cfg, pre.vals, e)
   /\ ObsWF(e.cfg, e.post)
 
